@@ -639,10 +639,10 @@ SYMEXT_NONPPT = Traced("symext_nonppt", _observe_symext, _judge_symext, _label_s
 
 
 SUBCHECKS = [
-    SubCheck("ppt_definition", check_ppt_definition, _pptdef_case, nt_pptdef, quick=3000, thorough=60000),
-    SubCheck("sep_sound_main", SOUND_MAIN.check, _sound_main_case, SOUND_MAIN.nontrivial, quick=1600, thorough=24000, case_timeout=CASE_TIMEOUT + 30),
+    SubCheck("ppt_definition", check_ppt_definition, _pptdef_case, nt_pptdef, quick=3000, thorough=60000, fuzz=4000),
+    SubCheck("sep_sound_main", SOUND_MAIN.check, _sound_main_case, SOUND_MAIN.nontrivial, quick=1600, thorough=24000, case_timeout=CASE_TIMEOUT + 30, fuzz=4000),
     SubCheck("sep_sound_3x3_deep", SOUND_DEEP.check, _sound_deep_case, SOUND_DEEP.nontrivial, quick=32, thorough=480, case_timeout=CASE_TIMEOUT + 30),
-    SubCheck("sep_sound_big", SOUND_BIG.check, _sound_big_case, SOUND_BIG.nontrivial, quick=1200, thorough=20000, case_timeout=CASE_TIMEOUT + 30),
+    SubCheck("sep_sound_big", SOUND_BIG.check, _sound_big_case, SOUND_BIG.nontrivial, quick=1200, thorough=20000, case_timeout=CASE_TIMEOUT + 30, fuzz=3000),
     SubCheck("sep_invariance", INVARIANCE.check, _inv_case, INVARIANCE.nontrivial, quick=240, thorough=3600, case_timeout=CASE_TIMEOUT + 30),
     SubCheck("separable_ball", check_ball, _ball_case, nt_ball, quick=2000, thorough=40000),
     SubCheck("symext_separable", SYMEXT.check, _symext_case, SYMEXT.nontrivial, quick=800, thorough=12000, case_timeout=CASE_TIMEOUT + 30),
